@@ -259,7 +259,6 @@ double GammaQcf(double x, double a)
 // Final function using different methods for different parts of the domain
 double GammaQ(double x, double a)
 {
-	double aMax = 100.0;
 	if(x < 0.0 || a <= 0.0)
 	{
 		std::cerr << "Error in libphysica::GammaQ(" << x << "," << a << "): Invalid arguments." << std::endl;
@@ -267,8 +266,6 @@ double GammaQ(double x, double a)
 	}
 	else if(x == 0)
 		return 1.0;
-	else if(a > aMax)
-		return GammaQint(x, a);
 	else if(x < a + 1.0)
 		return 1.0 - GammaPser(x, a);
 	else
